@@ -22,7 +22,7 @@ var catalog = []CatEntry{
 	{"MSET", "string", false, []string{"{ks} {v}", "{ks} {v} {ks2} {v}", "{ks} {v} {ks2}"}},
 	{"GET", "string", true, []string{"{k}"}},
 	{"MGET", "string", true, []string{"{k}", "{k} {k2}"}},
-	{"DEL", "any", false, []string{"{k}", "{k} {k2}"}},
+	{"DEL", "any", false, []string{"{k}", "{k} {k2}", "{k} {k}", "{k} x {k}"}},
 	{"PERSIST", "any", false, []string{"{k}"}},
 	{"EXPIRETIME", "any", true, []string{"{k}"}},
 	{"PEXPIRETIME", "any", true, []string{"{k}"}},
